@@ -1,5 +1,6 @@
-/- Basic facts about the worker loop with expiry (`KB.passLoop`): it executes exactly the actions it reports, and
-with expiry off it is the action list `KB.workerLoop` executed by `KB.runDeletes`. -/
+/- Basic facts about the worker loop with expiry (`KB.passLoop`): it executes exactly the actions it reports
+(`KB.runActs`: the expiry batch and the single-record deletes), and with expiry off it is the action list
+`KB.workerLoop` executed by `KB.runDeletes`. -/
 import KB.Scan
 namespace KB
 open Generated
@@ -7,21 +8,23 @@ open Generated
 /-- expiry is off: the engine has native ttl, or there is no timeout revision -/
 def WCfg.ExpiryOff (c : WCfg) : Prop := c.supportTTL = true ∨ c.timeout = 0
 
-theorem expiry_off {c : WCfg} (hc : c.ExpiryOff) (live : Bytes) (r : Rec) : expiry c live r = .no := by
+theorem expiry_off {c : WCfg} (hc : c.ExpiryOff) (live gone : Bytes) (r : Rec) : expiry c live gone r = .no := by
   unfold expiry
   rcases hc with h | h <;> simp [h]
 
-theorem expireStep_off {c : WCfg} (hc : c.ExpiryOff) (live : Bytes) (r : Rec) : expireStep c live r = none := by
+theorem expireStep_off {c : WCfg} (hc : c.ExpiryOff) (live gone : Bytes) (snap : List Rec) (r : Rec) :
+    expireStep c live gone snap r = none := by
   unfold expireStep; rw [expiry_off hc]
 
-/-- what the four outcomes of `expiry` other than `.no` say about the record -/
-theorem expiry_cases (c : WCfg) (live : Bytes) (r : Rec) :
-    (expiry c live r = .no) ∨
+/-- what the outcomes of `expiry` other than `.no` say about the record -/
+theorem expiry_cases (c : WCfg) (live gone : Bytes) (r : Rec) :
+    (expiry c live gone r = .no) ∨
     (c.supportTTL = false ∧ c.timeout ≠ 0 ∧ isEventKey c r.key = true ∧
-      ((expiry c live r = .panic ∧ r.rev = 0 ∧ r.val.length < 8) ∨
-       (expiry c live r = .idx ∧ r.rev = 0 ∧ 8 ≤ r.val.length ∧ fromBE (r.val.take 8) ≤ c.timeout) ∨
-       (expiry c live r = .noLive ∧ r.rev = 0 ∧ 8 ≤ r.val.length ∧ c.timeout < fromBE (r.val.take 8)) ∨
-       (expiry c live r = .ver ∧ r.rev ≠ 0 ∧ r.rev ≤ c.timeout ∧ r.key ≠ live))) := by
+      ((expiry c live gone r = .panic ∧ r.rev = 0 ∧ r.val.length < 8) ∨
+       (expiry c live gone r = .idx ∧ r.rev = 0 ∧ 8 ≤ r.val.length ∧ fromBE (r.val.take 8) ≤ c.timeout) ∨
+       (expiry c live gone r = .noLive ∧ r.rev = 0 ∧ 8 ≤ r.val.length ∧ c.timeout < fromBE (r.val.take 8)) ∨
+       (expiry c live gone r = .gone ∧ r.rev ≠ 0 ∧ r.key = gone) ∨
+       (expiry c live gone r = .ver ∧ r.rev ≠ 0 ∧ r.rev ≤ c.timeout ∧ r.key ≠ live ∧ r.key ≠ gone))) := by
   unfold expiry
   by_cases h1 : (c.supportTTL || c.timeout == 0) = true
   · rw [if_pos h1]; exact .inl rfl
@@ -40,16 +43,21 @@ theorem expiry_cases (c : WCfg) (live : Bytes) (r : Rec) :
           · rw [if_neg h5]; exact .inr ⟨h1'.1, h1'.2, h2, .inr (.inr (.inl ⟨rfl, hr, by omega, by omega⟩))⟩
       · rw [if_neg h3]
         have hr : r.rev ≠ 0 := by simpa using h3
-        by_cases h5 : (decide (r.rev ≤ c.timeout) && r.key != live) = true
-        · rw [if_pos h5]
-          simp only [Bool.and_eq_true, decide_eq_true_eq, bne_iff_ne, ne_eq] at h5
-          exact .inr ⟨h1'.1, h1'.2, h2, .inr (.inr (.inr ⟨rfl, hr, h5.1, h5.2⟩))⟩
-        · rw [if_neg h5]; exact .inl rfl
+        by_cases h6 : (r.key == gone) = true
+        · rw [if_pos h6]
+          exact .inr ⟨h1'.1, h1'.2, h2, .inr (.inr (.inr (.inl ⟨rfl, hr, by simpa using h6⟩)))⟩
+        · rw [if_neg h6]
+          have h6' : r.key ≠ gone := by simpa using h6
+          by_cases h5 : (decide (r.rev ≤ c.timeout) && r.key != live) = true
+          · rw [if_pos h5]
+            simp only [Bool.and_eq_true, decide_eq_true_eq, bne_iff_ne, ne_eq] at h5
+            exact .inr ⟨h1'.1, h1'.2, h2, .inr (.inr (.inr (.inr ⟨rfl, hr, h5.1, h5.2, h6'⟩)))⟩
+          · rw [if_neg h5]; exact .inl rfl
     · rw [if_neg h2]; exact .inl rfl
 
 /-- with expiry on, `compactIfExpired` never just passes over the revision record of an event key -/
 theorem expiry_idx_ne_no {c : WCfg} (hs : c.supportTTL = false) (hT : c.timeout ≠ 0) {r : Rec}
-    (hev : isEventKey c r.key = true) (hr0 : r.rev = 0) (live : Bytes) : expiry c live r ≠ .no := by
+    (hev : isEventKey c r.key = true) (hr0 : r.rev = 0) (live gone : Bytes) : expiry c live gone r ≠ .no := by
   unfold expiry
   rw [if_neg (by simp [hs, hT]), if_pos hev, if_pos (by simp [hr0])]
   split
@@ -69,64 +77,197 @@ theorem runDeletes_emitPrev' (mask : Nat → DelOutcome) (st : CompState) (p : P
     runDeletes mask st (emitPrev p) = st := by
   unfold emitPrev; split <;> rfl
 
+/-! ### `runActs`: the expiry batch and the single-record deletes -/
+
+/-- the action is not an expiry batch -/
+def Act.single : Act → Prop
+  | .expire _ _ _ _ => False
+  | _ => True
+
+theorem runAct_single (mask : Nat → DelOutcome) (st : CompState) {a : Act} (h : a.single) :
+    runAct mask st a = runDelete mask st a := by
+  cases a <;> first | rfl | exact absurd h (by simp [Act.single])
+
+theorem runAct_expire (mask : Nat → DelOutcome) (st : CompState) (ik v : Bytes) (vers : List Bytes) (raw : Bytes) :
+    runAct mask st (.expire ik v vers raw) = runExpire mask st ik v vers raw := rfl
+
+theorem runActs_nil (mask : Nat → DelOutcome) (st : CompState) : runActs mask st [] = st := rfl
+
+theorem runActs_cons (mask : Nat → DelOutcome) (st : CompState) (a : Act) (l : List Act) :
+    runActs mask st (a :: l) = runActs mask (runAct mask st a) l := rfl
+
+theorem runActs_append (mask : Nat → DelOutcome) (st : CompState) (l1 l2 : List Act) :
+    runActs mask st (l1 ++ l2) = runActs mask (runActs mask st l1) l2 := by
+  simp [runActs, List.foldl_append]
+
+/-- on single-record actions `runActs` is `runDeletes` -/
+theorem runActs_single (mask : Nat → DelOutcome) (acts : List Act) (st : CompState) (h : ∀ a ∈ acts, a.single) :
+    runActs mask st acts = runDeletes mask st acts := by
+  induction acts generalizing st with
+  | nil => rfl
+  | cons a l ih =>
+    rw [runActs_cons, runDeletes_cons', runAct_single mask st (h a (by simp)),
+      ih _ (fun a' ha' => h a' (List.mem_cons_of_mem _ ha'))]
+
+theorem emitPrev_single (p : Prev) : ∀ a ∈ emitPrev p, a.single := by
+  unfold emitPrev; split <;> simp [Act.single]
+
+/-- the ordinary rules of the loop body make single-record calls only -/
+theorem workerStep_single (c : WCfg) (p : Prev) (r : Rec) : ∀ a ∈ (workerStep c p r).1, a.single := by
+  unfold workerStep
+  simp only [emitPrev]
+  repeat' split
+  all_goals simp [Act.single]
+
+theorem workerLoop_single (c : WCfg) (rs : List Rec) (p : Prev) : ∀ a ∈ workerLoop c p rs, a.single := by
+  induction rs generalizing p with
+  | nil => exact emitPrev_single p
+  | cons r rs ih =>
+    intro a ha
+    simp only [workerLoop, List.mem_append] at ha
+    rcases ha with ha | ha
+    · exact workerStep_single c p r a ha
+    · exact ih _ a ha
+
+/-- the batch of `expireEvent` on the reference engine: all or nothing on the value of the revision record -/
+theorem commit_expireOps (s : Store) (ik v : Bytes) (vers : List Bytes) :
+    commit {} s (expireOps ik v vers) =
+      if s.get ik = some v then .ok (vers.foldl Store.erase (s.erase ik))
+      else .error (.conflict (some 0) (s.get ik)) := by
+  have hdel : ∀ (l : List Bytes) (t : Store) (i : Nat),
+      applyOps {} t i (l.map BOp.del) = .ok (l.foldl Store.erase t) := by
+    intro l
+    induction l with
+    | nil => intro t i; rfl
+    | cons x xs ih => intro t i; simp only [List.map_cons, applyOps, applyOp, List.foldl_cons]; exact ih _ _
+  unfold commit expireOps
+  simp only [applyOps, applyOp]
+  cases hg : s.get ik with
+  | none => simp
+  | some cur =>
+    by_cases hv : cur = v
+    · subst hv; simp only [if_true]; exact hdel _ _ _
+    · simp [hv]
+
+/-- `isSkippedRawKey` -/
+def skipped (st : CompState) (raw : Bytes) : Bool := decide (st.lastFailed.length > 0) && st.lastFailed == raw
+
+theorem skipped_iff {st : CompState} {raw : Bytes} :
+    skipped st raw = true ↔ st.lastFailed ≠ [] ∧ st.lastFailed = raw := by
+  simp [skipped, List.length_pos_iff]
+
+/-- the three ways the expiry batch can go -/
+theorem runExpire_cases (mask : Nat → DelOutcome) (st : CompState) (ik v : Bytes) (vers : List Bytes) (raw : Bytes) :
+    (skipped st raw = true ∧ runExpire mask st ik v vers raw = st ∧ expireErr mask st ik v raw = false) ∨
+    (skipped st raw = false ∧ expireErr mask st ik v raw = false ∧
+        mask st.calls = .ok ∧ st.store.get ik = some v ∧
+        (runExpire mask st ik v vers raw).store = vers.foldl Store.erase (st.store.erase ik) ∧
+        (runExpire mask st ik v vers raw).lastFailed = st.lastFailed ∧
+        (runExpire mask st ik v vers raw).calls = st.calls + 1) ∨
+    (skipped st raw = false ∧ expireErr mask st ik v raw = true ∧
+        (runExpire mask st ik v vers raw).store = st.store ∧
+        ((runExpire mask st ik v vers raw).lastFailed = st.lastFailed ∨
+          (runExpire mask st ik v vers raw).lastFailed = raw) ∧
+        (runExpire mask st ik v vers raw).calls = st.calls + 1) := by
+  cases hsk : skipped st raw with
+  | true =>
+    left
+    unfold skipped at hsk
+    refine ⟨rfl, ?_, ?_⟩
+    · simp only [runExpire, hsk, if_true]
+    · simp only [expireErr, hsk]; rfl
+  | false =>
+    right
+    unfold skipped at hsk
+    simp only [runExpire, expireErr, hsk]
+    cases hmc : mask st.calls with
+    | ok =>
+      rw [commit_expireOps]
+      by_cases hg : st.store.get ik = some v
+      · left; simp [hg]
+      · right; simp [hg]
+    | fail => right; simp
+    | failCas => right; simp
+
+/-- what `expireEvent` collects: the internal keys of the snapshot's versions of `k` -/
+theorem mem_versionsOf {k : Bytes} {snap : List Rec} {ik : Bytes} :
+    ik ∈ versionsOf k snap ↔ ∃ w ∈ snap, w.key = k ∧ w.rev ≠ 0 ∧ w.rev < 2 ^ 64 - 1 ∧ w.ik = ik := by
+  unfold versionsOf
+  simp only [List.mem_map, List.mem_filter, Bool.and_eq_true, beq_iff_eq, bne_iff_ne, ne_eq, decide_eq_true_eq]
+  constructor
+  · rintro ⟨w, ⟨hw, ⟨h1, h2⟩, h3⟩, e⟩; exact ⟨w, hw, h1, h2, h3, e⟩
+  · rintro ⟨w, hw, h1, h2, h3, e⟩; exact ⟨w, ⟨hw, ⟨h1, h2⟩, h3⟩, e⟩
+
 /-- unfolding of one iteration, by the decision of `compactIfExpired` -/
-theorem passLoop_cons (c : WCfg) (mask : Nat → DelOutcome) (p : Prev) (live : Bytes) (st : CompState)
-    (r : Rec) (rs : List Rec) :
-    passLoop c mask p live st (r :: rs) =
-      match expiry c live r with
-      | .panic => (.panic :: (passLoop c mask p live st rs).1, (passLoop c mask p live st rs).2)
+theorem passLoop_cons (c : WCfg) (mask : Nat → DelOutcome) (snap : List Rec) (p : Prev) (live gone : Bytes)
+    (st : CompState) (r : Rec) (rs : List Rec) :
+    passLoop c mask snap p live gone st (r :: rs) =
+      match expiry c live gone r with
+      | .panic => (.panic :: (passLoop c mask snap p live gone st rs).1, (passLoop c mask snap p live gone st rs).2)
       | .idx =>
-        (.delcur r.ik r.val r.key ::
-          (passLoop c mask p (if delcurErr mask st r.ik r.val r.key then r.key else live)
-            (runDelete mask st (.delcur r.ik r.val r.key)) rs).1,
-         (passLoop c mask p (if delcurErr mask st r.ik r.val r.key then r.key else live)
-            (runDelete mask st (.delcur r.ik r.val r.key)) rs).2)
+        (.expire r.ik r.val (versionsOf r.key snap) r.key ::
+          (passLoop c mask snap p (if expireErr mask st r.ik r.val r.key then r.key else live)
+            (if expireErr mask st r.ik r.val r.key then gone else r.key)
+            (runExpire mask st r.ik r.val (versionsOf r.key snap) r.key) rs).1,
+         (passLoop c mask snap p (if expireErr mask st r.ik r.val r.key then r.key else live)
+            (if expireErr mask st r.ik r.val r.key then gone else r.key)
+            (runExpire mask st r.ik r.val (versionsOf r.key snap) r.key) rs).2)
+      | .gone => passLoop c mask snap p live gone st rs
       | .ver =>
-        (.del r.ik r.key :: (passLoop c mask p live (runDelete mask st (.del r.ik r.key)) rs).1,
-         (passLoop c mask p live (runDelete mask st (.del r.ik r.key)) rs).2)
+        (.del r.ik r.key :: (passLoop c mask snap p live gone (runDelete mask st (.del r.ik r.key)) rs).1,
+         (passLoop c mask snap p live gone (runDelete mask st (.del r.ik r.key)) rs).2)
       | .noLive =>
         ((workerStep c p r).1 ++
-          (passLoop c mask (workerStep c p r).2 r.key (runDeletes mask st (workerStep c p r).1) rs).1,
-         (passLoop c mask (workerStep c p r).2 r.key (runDeletes mask st (workerStep c p r).1) rs).2)
+          (passLoop c mask snap (workerStep c p r).2 r.key gone (runDeletes mask st (workerStep c p r).1) rs).1,
+         (passLoop c mask snap (workerStep c p r).2 r.key gone (runDeletes mask st (workerStep c p r).1) rs).2)
       | .no =>
         ((workerStep c p r).1 ++
-          (passLoop c mask (workerStep c p r).2 live (runDeletes mask st (workerStep c p r).1) rs).1,
-         (passLoop c mask (workerStep c p r).2 live (runDeletes mask st (workerStep c p r).1) rs).2) := by
+          (passLoop c mask snap (workerStep c p r).2 live gone (runDeletes mask st (workerStep c p r).1) rs).1,
+         (passLoop c mask snap (workerStep c p r).2 live gone (runDeletes mask st (workerStep c p r).1) rs).2) := by
   rw [passLoop]
-  cases expiry c live r <;> rfl
+  cases expiry c live gone r <;> rfl
 
 /-- the state after the loop is the execution of the actions it reports -/
-theorem passLoop_run (c : WCfg) (mask : Nat → DelOutcome) (rs : List Rec) (p : Prev) (live : Bytes)
-    (st : CompState) :
-    (passLoop c mask p live st rs).2 = runDeletes mask st (passLoop c mask p live st rs).1 := by
-  induction rs generalizing p live st with
-  | nil => simp only [passLoop]; rw [runDeletes_emitPrev']
+theorem passLoop_run (c : WCfg) (mask : Nat → DelOutcome) (snap : List Rec) (rs : List Rec) (p : Prev)
+    (live gone : Bytes) (st : CompState) :
+    (passLoop c mask snap p live gone st rs).2 = runActs mask st (passLoop c mask snap p live gone st rs).1 := by
+  induction rs generalizing p live gone st with
+  | nil => simp only [passLoop]; rw [runActs_single _ _ _ (emitPrev_single p), runDeletes_emitPrev']
   | cons r rs ih =>
     rw [passLoop_cons]
-    cases expiry c live r with
-    | panic => simp only; rw [runDeletes_cons', ih]; rfl
-    | idx => simp only; rw [runDeletes_cons', ih]
-    | ver => simp only; rw [runDeletes_cons', ih]
-    | noLive => simp only; rw [runDeletes_append', ih]
-    | no => simp only; rw [runDeletes_append', ih]
+    cases expiry c live gone r with
+    | panic => simp only; rw [runActs_cons, ih]; rfl
+    | idx => simp only; rw [runActs_cons, ih]; rfl
+    | gone => simp only; exact ih _ _ _ _
+    | ver => simp only; rw [runActs_cons, ih]; rfl
+    | noLive => simp only; rw [runActs_append, runActs_single _ _ _ (workerStep_single c p r), ih]
+    | no => simp only; rw [runActs_append, runActs_single _ _ _ (workerStep_single c p r), ih]
 
 /-- With expiry off the loop performs the actions of `workerLoop`, whatever it remembers. -/
-theorem passLoop_expiry_off {c : WCfg} (hc : c.ExpiryOff) (mask : Nat → DelOutcome) (rs : List Rec) (p : Prev)
-    (live : Bytes) (st : CompState) :
-    passLoop c mask p live st rs = (workerLoop c p rs, runDeletes mask st (workerLoop c p rs)) := by
-  induction rs generalizing p live st with
+theorem passLoop_expiry_off {c : WCfg} (hc : c.ExpiryOff) (mask : Nat → DelOutcome) (snap : List Rec)
+    (rs : List Rec) (p : Prev) (live gone : Bytes) (st : CompState) :
+    passLoop c mask snap p live gone st rs = (workerLoop c p rs, runDeletes mask st (workerLoop c p rs)) := by
+  induction rs generalizing p live gone st with
   | nil => simp only [passLoop, workerLoop]; rw [runDeletes_emitPrev']
   | cons r rs ih =>
     rw [passLoop_cons, expiry_off hc]
     simp only [workerLoop]
     rw [ih, runDeletes_append']
 
+theorem expiryCallShape_eq : (expiryCallShape == "batch") = true := by decide
+
+/-- the loop the source has (regenerated fact `expiryCallShape`): the one with the expiry batch -/
+theorem passRun_eq (c : WCfg) (mask : Nat → DelOutcome) (st : CompState) (recs : List Rec) :
+    passRun c mask st recs = passLoop c mask recs {} [] [] { st with lastFailed := [] } recs := by
+  unfold passRun
+  rw [if_pos expiryCallShape_eq]
+
 /-- … in particular one worker of a compaction without a timeout revision (or on an engine with native ttl) is
 `runDeletes` over `workerActs`: what C07 / C07Race / C07Par are stated about. -/
 theorem passRun_expiry_off {c : WCfg} (hc : c.ExpiryOff) (mask : Nat → DelOutcome) (st : CompState)
     (recs : List Rec) :
     passRun c mask st recs =
-      (workerActs c recs, runDeletes mask { st with lastFailed := [] } (workerActs c recs)) :=
-  passLoop_expiry_off hc mask recs {} [] _
+      (workerActs c recs, runDeletes mask { st with lastFailed := [] } (workerActs c recs)) := by
+  rw [passRun_eq]; exact passLoop_expiry_off hc mask recs recs {} [] [] _
 
 end KB
